@@ -11,7 +11,7 @@ use serde_json::{json, Value};
 pub static ENGINE: Engine = Engine {
     prop: "C17",
     level: "exploration",
-    rule: "the real sudoku_gen binary. r=1: every puzzle text <= 3 characters over {1 . x space newline}. r=2: the empty puzzle and EVERY pattern of <= 2 givens (all cells x all digits, incl. contradictory pairs), each in three layouts (one line, 4 lines, spaces between cells) with blanks spelled . x _, plus short and over-long texts: the models of the emitted formula, enumerated exhaustively by the constraint-DFS enumerator over its 64 variables, must be in bijection with the valid completed 4x4 grids (brute force: 288) that keep the givens, each model setting exactly one _c_is_d per cell. r=3: the multiset of `[..] = 1` conjuncts equals the independently generated family {cell, row x digit, column x digit, box x digit}, hint literals equal the givens, three valid grids satisfy the formula and ALL their single-cell changes and in-row swaps are rejected. distinct = distinct (root, puzzle text)",
+    rule: "the real sudoku_gen binary. r=1: every puzzle text <= 3 characters over {1 . x space newline}. r=2: the empty puzzle and EVERY pattern of <= 2 givens (all cells x all digits, incl. contradictory pairs), each in five layouts (one line, 4 lines, spaces between cells, Windows line endings, tabs) with blanks spelled . x _, plus short and over-long texts: the models of the emitted formula, enumerated exhaustively by the constraint-DFS enumerator over its 64 variables, must be in bijection with the valid completed 4x4 grids (brute force: 288) that keep the givens, each model setting exactly one _c_is_d per cell. r=3: the multiset of `[..] = 1` conjuncts equals the independently generated family {cell, row x digit, column x digit, box x digit}, hint literals equal the givens, three valid grids satisfy the formula and ALL their single-cell changes and in-row swaps are rejected. distinct = distinct (root, puzzle text)",
     assumptions: &["reference semantics (harness/src/puzzles.rs); givens are digits 1..r^2, every other non-whitespace character is a blank", "exact model sets for r <= 2; structural exactness plus near-miss rejection for r = 3"],
     max_shards: 64,
     run,
@@ -242,7 +242,8 @@ fn layouts(cells: &[char], blank: char) -> Vec<String> {
     let s: String = cells.iter().map(|c| if *c == '.' { blank } else { *c }).collect();
     let lines: Vec<String> = s.chars().collect::<Vec<_>>().chunks(4).map(|c| c.iter().collect()).collect();
     let spaced: String = s.chars().map(|c| format!("{c} ")).collect();
-    vec![s.clone(), lines.join("\n") + "\n", spaced]
+    let tabbed: String = lines.join("\t");
+    vec![s.clone(), lines.join("\n") + "\n", spaced, lines.join("\r\n") + "\r\n", tabbed]
 }
 
 fn run(ctx: &mut Ctx) {
@@ -282,7 +283,7 @@ fn run(ctx: &mut Ctx) {
         let blank = ['.', 'x', '_'][pi % 3];
         let ls = layouts(p, blank);
         // quick: one layout per pattern (cycling), thorough: all three
-        let pick: Vec<&String> = if ctx.thorough() { ls.iter().collect() } else { vec![&ls[pi % 3]] };
+        let pick: Vec<&String> = if ctx.thorough() { ls.iter().collect() } else { vec![&ls[pi % 5]] };
         for l in pick {
             idx += 1;
             if ctx.mine(idx) {
